@@ -431,6 +431,7 @@ func (e *Contend) checkpoint(where string, present int) {
 	for _, p := range w.Problems {
 		e.problem("C14", "structure", "%s: %s", where, p)
 	}
+	e.db.rawStatsExpected = true
 	for _, p := range ReconcileStats(e.db, w) {
 		e.problem("C14", "statistics", "%s: %s", where, p)
 	}
